@@ -727,3 +727,14 @@ pub fn compile(
         ))
     }
 }
+
+/// Verification hook: compile `code` as the module `path` entirely in memory (nothing is
+/// executed and the entry module is not written to disk); `Ok` on success, the diagnostics otherwise.
+#[cfg(mscript_verif)]
+pub fn verif_compile_str(path: &str, code: &str) -> Result<(), Vec<anyhow::Error>> {
+    let _ = LOGGER_INSTANCE.set(VerboseLogger::new(false));
+
+    let output_path = Path::new(path).with_extension("mmm");
+
+    compile_from_str(path, output_path, code, FileManager::new()).map(|_| ())
+}
